@@ -38,6 +38,9 @@ func valKey(v Value) string {
 	case PtrVal:
 		return "ptr:" + ptrKey(x) + "|" + x.Nil.S
 	case IfaceVal:
+		if x.Aux != nil {
+			return "if:" + x.Nil.S + "|" + x.Aux.S
+		}
 		return "if:" + x.Nil.S
 	case MapVal:
 		return fmt.Sprintf("map:%d|%s", x.ID, x.Len.S)
